@@ -1,0 +1,93 @@
+//go:build verif
+
+// Contracts for govc (contract-based deductive verification); comments only.
+package gpurequesthandler
+
+//@ import res "github.com/NVIDIA/KAI-scheduler/pkg/common/resources"
+// The parsers as functions of the annotation string (res.pfVal/pfOk, res.puVal/puOk, res.piVal/piOk) and
+// the property-level notions res.wfFraction / res.wfPosInt are defined once, in pkg/common/resources.
+
+// C19: "Every GPU request that admission accepts (fraction ...) denotes a finite positive quantity":
+// a present gpu-fraction annotation is accepted iff it parses to a finite f with 0 < f < 1.
+// (Before fix 1c0b67c "NaN" was accepted: NaN <= 0 and NaN >= 1 are both false.)
+//@ func validateGpuFractionAnnotation
+//@   props C19
+//@   ieee
+//@   pure
+//@   ensures [fraction-wellformed-iff] (result == nil) == (!hasGpuFractionAnnotation || res.wfFraction(gpuFractionFromAnnotation))
+//@   lemma [rejects-nan] hasGpuFractionAnnotation && isnan(res.pfVal(gpuFractionFromAnnotation)) ==> result != nil
+//@   lemma [rejects-inf] hasGpuFractionAnnotation && isinf(res.pfVal(gpuFractionFromAnnotation)) ==> result != nil
+//@   lemma [rejects-unparsable] hasGpuFractionAnnotation && !res.pfOk(gpuFractionFromAnnotation) ==> result != nil
+//@   lemma [rejects-one] hasGpuFractionAnnotation && isfinite(res.pfVal(gpuFractionFromAnnotation)) && fval(res.pfVal(gpuFractionFromAnnotation)) >= 1.0 ==> result != nil
+//@   lemma [rejects-zero] hasGpuFractionAnnotation && isfinite(res.pfVal(gpuFractionFromAnnotation)) && fval(res.pfVal(gpuFractionFromAnnotation)) <= 0.0 ==> result != nil
+//@ end
+
+// C19: gpu-memory present ==> 1 <= m <= MaxInt64, where m is what the scheduler / binder read with
+// ParseInt.  (Before fix 1c0b67c the validator used ParseUint: (MaxInt64, MaxUint64] was accepted.)
+//@ func validateMemoryAnnotation
+//@   props C19
+//@   pure
+//@   ensures [memory-wellformed-iff] (result == nil) == (!hasGpuMemoryAnnotation || res.wfPosInt(gpuMemoryFromAnnotation))
+//@   lemma [rejects-above-maxint64] hasGpuMemoryAnnotation && res.puOk(gpuMemoryFromAnnotation) && res.puVal(gpuMemoryFromAnnotation) > res.maxInt64() ==> result != nil
+//@   lemma [rejects-nonpositive] hasGpuMemoryAnnotation && res.piOk(gpuMemoryFromAnnotation) && res.piVal(gpuMemoryFromAnnotation) <= 0 ==> result != nil
+//@ end
+
+//@ func validateMultiFractionRequest
+//@   props C19
+//@   pure
+//@   ensures [count-wellformed-iff] (result == nil) == (!hasGpuFractionsCount || res.wfPosInt(gpuFractionsCountFromAnnotation))
+//@   lemma [rejects-above-maxint64] hasGpuFractionsCount && res.puOk(gpuFractionsCountFromAnnotation) && res.puVal(gpuFractionsCountFromAnnotation) > res.maxInt64() ==> result != nil
+//@   lemma [rejects-nonpositive] hasGpuFractionsCount && res.piOk(gpuFractionsCountFromAnnotation) && res.piVal(gpuFractionsCountFromAnnotation) <= 0 ==> result != nil
+//@ end
+
+// ---- whole-GPU limit ------------------------------------------------------------------------
+// "whole GPU" = some regular or init container carries an nvidia.com/gpu limit.  Index i runs over the
+// regular containers followed by the init containers.
+//@ define gpuLimitAt(pod *v1.Pod, i int) bool = ite(i < len(pod.Spec.Containers), constants.NvidiaGpuResource in pod.Spec.Containers[i].Resources.Limits, constants.NvidiaGpuResource in pod.Spec.InitContainers[i - len(pod.Spec.Containers)].Resources.Limits)
+//@ define hasWholeGpuLimit(pod *v1.Pod) bool = exists i int :: 0 <= i && i < len(pod.Spec.Containers) + len(pod.Spec.InitContainers) && gpuLimitAt(pod, i)
+
+//@ func getFirstGPULimit
+//@   props C19
+//@   requires pod != nil
+//@   pure
+//@   loop 1
+//@     invariant -1 <= rangeindex && rangeindex < len(containers)
+//@     invariant len(containers) == len(pod.Spec.Containers) + len(pod.Spec.InitContainers)
+//@     invariant forall j int :: 0 <= j && j < len(containers) ==> (constants.NvidiaGpuResource in containers[j].Resources.Limits) == gpuLimitAt(pod, j)
+//@     invariant forall j int :: 0 <= j && j <= rangeindex ==> !gpuLimitAt(pod, j)
+//@     # ground instance of invariant 3 for the element the next iteration looks at (hint for [found])
+//@     invariant rangeindex + 1 < len(containers) ==> (constants.NvidiaGpuResource in containers[rangeindex + 1].Resources.Limits) == gpuLimitAt(pod, rangeindex + 1)
+//@     decreases len(containers) - rangeindex
+//@   ensures [found] result != nil ==> hasWholeGpuLimit(pod)
+//@   ensures [none] result == nil ==> !hasWholeGpuLimit(pod)
+//@ end
+
+// ---- the validator shared by admission (gpusharing.Validate) and the binder plugin ---------------
+//@ define mpsWithoutFraction(pod *v1.Pod) bool = !res.hasFrac(pod) && !res.hasMem(pod) && constants.MpsAnnotation in pod.Annotations && pod.Annotations[constants.MpsAnnotation] == "true"
+// combinations that must be rejected whatever the values are (C19: "not both fraction and memory / whole GPU";
+// a device count needs a portion or an amount of memory; MPS only with a fraction)
+//@ define badCombination(pod *v1.Pod) bool = mpsWithoutFraction(pod) || (res.hasFrac(pod) && hasWholeGpuLimit(pod)) || (res.hasMem(pod) && (res.hasFrac(pod) || hasWholeGpuLimit(pod))) || (res.hasCount(pod) && !res.hasFrac(pod) && !res.hasMem(pod))
+// what the property demands, value-wise
+//@ define valuesWellFormed(pod *v1.Pod) bool = (!res.hasMem(pod) || res.wfPosInt(res.memStr(pod))) && (!res.hasFrac(pod) || res.wfFraction(res.fracStr(pod))) && (!res.hasCount(pod) || res.wfPosInt(res.countStr(pod)))
+
+// C19 (top level): "Every GPU request that admission accepts (fraction, GPU memory, number of
+// fractional devices, whole GPUs ...) denotes a finite positive quantity ... Anything the scheduler
+// would treat as a GPU-sharing request is rejected by admission when malformed".
+//@ func ValidateGpuRequests
+//@   props C19
+//@   ieee
+//@   requires pod != nil
+//@   pure
+//@   ensures [exact] (result == nil) == (!badCombination(pod) && valuesWellFormed(pod))
+//@   ensures [excl-fraction-whole] result == nil ==> !(res.hasFrac(pod) && hasWholeGpuLimit(pod))
+//@   ensures [excl-memory-fraction] result == nil ==> !(res.hasMem(pod) && res.hasFrac(pod))
+//@   ensures [excl-memory-whole] result == nil ==> !(res.hasMem(pod) && hasWholeGpuLimit(pod))
+//@   ensures [count-needs-portion] result == nil && res.hasCount(pod) ==> res.hasFrac(pod) || res.hasMem(pod)
+//@   ensures [mps-needs-fraction] result == nil ==> !mpsWithoutFraction(pod)
+//@   ensures [accepts-wellformed] !badCombination(pod) && valuesWellFormed(pod) ==> result == nil
+// (these three were red before fix 1c0b67c, then named lemma[finding-nan-fraction] / [finding-uint-memory] /
+//  [finding-uint-count]: "NaN" was accepted, and so were values in (MaxInt64, MaxUint64])
+//@   ensures [accepted-fraction-finite-in-0-1] result == nil && res.hasFrac(pod) ==> res.wfFraction(res.fracStr(pod))
+//@   ensures [accepted-memory-in-1-maxint64] result == nil && res.hasMem(pod) ==> res.wfPosInt(res.memStr(pod))
+//@   ensures [accepted-count-in-1-maxint64] result == nil && res.hasCount(pod) ==> res.wfPosInt(res.countStr(pod))
+//@ end
